@@ -38,6 +38,19 @@ func mutateLit(l *ALit, r *Rng) (undo func(), ok bool) {
 		if nv.Cmp(hi) > 0 {
 			nv = new(big.Int).Sub(v, big.NewInt(1))
 		}
+		if r.Chance(35) {
+			// a different integer that a fixed-width conversion would confuse with v: v -/+ 2^64, v -/+ 2^32, -v
+			var cand []*big.Int
+			for _, sh := range []uint{64, 32, 63} {
+				w := new(big.Int).Lsh(big.NewInt(1), sh)
+				cand = append(cand, new(big.Int).Sub(v, w), new(big.Int).Add(v, w))
+			}
+			cand = append(cand, new(big.Int).Neg(v))
+			c := cand[r.Intn(len(cand))]
+			if c.Cmp(lo) >= 0 && c.Cmp(hi) <= 0 && c.Cmp(v) != 0 {
+				nv = c
+			}
+		}
 		if nv.Cmp(lo) < 0 {
 			return undo, false
 		}
